@@ -403,3 +403,30 @@ def clauses_c13(c, H):
             c.prove("C13.finish is_executing-false", s_not(is_exec), info=dict(iteration=i))
             c.prove("C13.finish done-invoked", len(it.done_seqs) > 0, info=dict(iteration=i))
             phase = "finished"
+
+
+# ---------------------------------------------------------------------------------------
+# Layer B (advisory): one step from an arbitrary state under the representation invariant
+# ---------------------------------------------------------------------------------------
+
+
+def clauses_step(c, H, pre, post, P):
+    it = H.iters[0]
+    eng = engaged_in(it)
+    c.reach("inductive-step")
+    c.prove(f"{P}.step no-exception", it.raised is None, info=dict(exc=it.raised, pre=pre))
+    for x in it.calls:
+        if x.kind == "regular":
+            c.prove(f"{P}.step regular-needs-engage", eng, info=dict(state=x.name, pre=pre, ext=it.ext))
+    if not eng:
+        L = last_call(it)
+        if L is None or L.kind == "default" or L.action == "done":
+            is_exec, cur_attr, _ = it.after
+            c.prove(f"{P}.step stopped-flags", s_and(s_not(is_exec), cur_attr == ""), info=dict(pre=pre, ext=it.ext))
+    # the invariant is re-established: request flag cleared, untimed states entered in this step never expire
+    c.prove(f"{P}.step invariant-request-flag-cleared", post["should_engage"] is False, info=dict(pre=pre))
+    if not any(x.action == "done" and x.target for x in it.calls):
+        is_exec, cur_attr, _ = it.after
+        c.prove(f"{P}.step invariant-engaged-iff-inside-a-state", s_eq(is_exec, cur_attr != ""), info=dict(pre=pre, ext=it.ext))
+    for n, ran, ex, st in post["untimed_ok"]:
+        c.prove(f"{P}.step invariant-untimed-never-expires", s_eq(ex, st + 0xFFFFFFFF), when=ran, info=dict(state=n))
